@@ -1,6 +1,7 @@
 package main
 
 import (
+	"sync"
 	"fmt"
 	"go/token"
 	"sort"
@@ -148,7 +149,11 @@ func guardVerdict(m *Module, r *Report, rule, key string, fn *ssa.Function, sink
 var callersCache = map[*Module]map[*ssa.Function][]callSite{}
 var addrTakenCache = map[*Module]map[*ssa.Function]bool{}
 
+var callersMu sync.Mutex
+
 func moduleCallers(m *Module) (map[*ssa.Function][]callSite, map[*ssa.Function]bool) {
+	callersMu.Lock()
+	defer callersMu.Unlock()
 	if c, ok := callersCache[m]; ok {
 		return c, addrTakenCache[m]
 	}
